@@ -179,3 +179,31 @@ def _(u):
     # reward = -(latest completion time over the real, un-padded operations)
     u.prove("reward.upper-bound", IMPL(NOT(td["pad_mask"].at(b, o)), -r.at(b) >= td["finish_times"].at(b, o)), tags=("C03", "C07"))
     u.prove("reward.attained", u.exists((O,), lambda k: AND(NOT(td["pad_mask"].at(b, k)), -r.at(b) == td["finish_times"].at(b, k))), tags=("C03", "C07"))
+
+
+JS = "rl4co/envs/scheduling/jssp/env.py"
+
+
+@unit("jssp.get_action_mask", file=JS, func="JSSPEnv.get_action_mask", props=("C07", "C05", "C02", "C04"))
+def _(u):
+    # JSSP actions are jobs (0 = wait): job j is offered iff its next operation can start on SOME machine now
+    # (in JSSP exactly one machine is eligible per operation; the mask reduces the job x machine availability over machines)
+    B, J, M, O = u.dims("B J M O")
+    for mode in (True, False):
+        td = mask_state(u, B, J, M, O)
+        u.requires(u.forall((B, J), lambda b, j: AND(td["next_op"].at(b, j) >= 0, td["next_op"].at(b, j) < O)))
+        pre = u.snapshot(td)
+        env = u.obj(JS, "JSSPEnv", mask_no_ops=mode, _num_jobs=J, _num_mas=M)
+        u.inline((F, "FJSPEnv._get_job_machine_availability"))
+        m_ = u.run(JS, "JSSPEnv.get_action_mask", td, selfobj=env, record=(mode is True))
+        tag = "no-wait" if mode else "wait"
+        same_tensor(u, f"jmask.{tag}.shape", m_, (B, 1 + J), lambda bb, aa: m_.at(bb, aa), tags=("C04",))
+        b = u.idx((B,), f"jb_{tag}")
+        j = u.idx((J,), f"jj_{tag}")
+        u.prove(f"jmask.{tag}.job.iff", m_.at(b, 1 + j) == u.exists((M,), lambda m: can_start(pre, b, j, m)), tags=("C07", "C05"))
+        if mode:
+            u.prove(f"jmask.{tag}.noop.iff-done", m_.at(b, 0) == pre["done"].at(b, 0), tags=("C07", "C02"))
+        else:
+            some_running = u.exists((J,), lambda k: pre["job_in_process"].at(b, k))
+            u.prove(f"jmask.{tag}.noop.iff", m_.at(b, 0) == OR(pre["done"].at(b, 0), some_running), tags=("C07", "C02"))
+        u.canary(f"jmask.{tag}.needs-all-machines", m_.at(b, 1 + j) == u.forall((M,), lambda m: can_start(pre, b, j, m)))
